@@ -132,7 +132,9 @@ def rand_string(rng, maxlen=6):
     n = rng.choice([0, 0, 1, 1, 2, 3, maxlen])
     return b"".join(rng.choice([b"a", b" ", b'"', b"\\", b"-", "é".encode(), "€".encode(), b"b", b"\\\"", b"  "]) for _ in range(n))
 
-ARG_TOKENS = [b"", b"-", b"--", b"-a", "-aé".encode(), b"--x", b"---x", b"a", "é b".encode(), b"-h", b"--help", "-€h😀".encode(), b"--=", b"x-y"]
+ARG_TOKENS = [b"", b"-", b"--", b"-a", "-aé".encode(), b"--x", b"---x", b"a", "é b".encode(), b"-h", b"--help", "-€h😀".encode(), b"--=", b"x-y",
+              # quoted tokens that start with dashes and contain blanks, digits after a dash, a lone dash followed by a blank
+              b"-a b", b"--long name", b"- item", "-б ".encode(), b"-- ", b"-1", b"-12", b"-007", b"--12", b" -x", b"a -b", b"-x1"]
 
 def quote_token(t):
     if t == b"" or b" " in t or b'"' in t or b"\\" in t:
